@@ -13,7 +13,36 @@ instance : DecidablePred Sorted := fun l => by unfold Sorted; infer_instance
 
 /-! ## stable sort -/
 
-theorem insertSorted_perm (e : Slot) (l : List Slot) : (insertSorted e l).Perm (e :: l) := by
+/-- sorted by the sort key of `tb` -/
+def SortedBy (tb : TieBreak) (l : List Slot) : Prop := l.Pairwise (fun a b => slotLe tb a b = true)
+
+instance (tb : TieBreak) : DecidablePred (SortedBy tb) := fun l => by unfold SortedBy; infer_instance
+
+theorem slotLe_pos {tb : TieBreak} {a b : Slot} (h : slotLe tb a b = true) : a.pos ≤ b.pos := by
+  cases tb <;> simp [slotLe] at h <;> omega
+
+theorem slotLe_total {tb : TieBreak} {a b : Slot} (h : slotLe tb a b = false) : slotLe tb b a = true := by
+  cases tb <;> simp [slotLe] at h ⊢ <;> omega
+
+theorem slotLe_trans {tb : TieBreak} {a b c : Slot} (h1 : slotLe tb a b = true) (h2 : slotLe tb b c = true) :
+    slotLe tb a c = true := by
+  cases tb <;> simp [slotLe] at h1 h2 ⊢ <;> omega
+
+/-- the patched sort key is a TOTAL order on slots: two slots that compare both ways are equal -/
+theorem slotLe_total_antisymm {a b : Slot} (h1 : slotLe .total a b = true) (h2 : slotLe .total b a = true) :
+    a = b := by
+  cases a; cases b
+  simp [slotLe] at h1 h2 ⊢
+  omega
+
+theorem sorted_of_sortedBy {tb : TieBreak} {l : List Slot} (h : SortedBy tb l) : Sorted l :=
+  List.Pairwise.imp (fun h => slotLe_pos h) h
+
+theorem sortedBy_joinOrder {l : List Slot} : SortedBy .joinOrder l ↔ Sorted l := by
+  unfold SortedBy Sorted
+  constructor <;> intro h <;> refine List.Pairwise.imp ?_ h <;> intro a b hab <;> simpa [slotLe] using hab
+
+theorem insertSorted_perm (tb : TieBreak) (e : Slot) (l : List Slot) : (insertSorted tb e l).Perm (e :: l) := by
   induction l with
   | nil => exact List.Perm.refl _
   | cons x xs ih =>
@@ -22,14 +51,15 @@ theorem insertSorted_perm (e : Slot) (l : List Slot) : (insertSorted e l).Perm (
     · exact List.Perm.refl _
     · exact (List.Perm.cons x ih).trans (List.Perm.swap e x xs)
 
-theorem mem_insertSorted {e s : Slot} {l : List Slot} : s ∈ insertSorted e l ↔ s = e ∨ s ∈ l := by
-  rw [(insertSorted_perm e l).mem_iff]; simp
+theorem mem_insertSorted {tb : TieBreak} {e s : Slot} {l : List Slot} : s ∈ insertSorted tb e l ↔ s = e ∨ s ∈ l := by
+  rw [(insertSorted_perm tb e l).mem_iff]; simp
 
-theorem sorted_insertSorted {e : Slot} {l : List Slot} (h : Sorted l) : Sorted (insertSorted e l) := by
+theorem sortedBy_insertSorted {tb : TieBreak} {e : Slot} {l : List Slot} (h : SortedBy tb l) :
+    SortedBy tb (insertSorted tb e l) := by
   induction l with
-  | nil => simp [insertSorted, Sorted]
+  | nil => simp [insertSorted, SortedBy]
   | cons x xs ih =>
-    unfold Sorted at h ih ⊢
+    unfold SortedBy at h ih ⊢
     simp only [insertSorted]
     split
     · rename_i hle
@@ -38,43 +68,46 @@ theorem sorted_insertSorted {e : Slot} {l : List Slot} (h : Sorted l) : Sorted (
       intro b hb
       rcases List.mem_cons.mp hb with rfl | hb
       · exact hle
-      · exact Nat.le_trans hle (h.1 b hb)
+      · exact slotLe_trans hle (h.1 b hb)
     · rename_i hle
       rw [List.pairwise_cons] at h ⊢
       refine ⟨?_, ih h.2⟩
       intro b hb
       rcases mem_insertSorted.mp hb with rfl | hb
-      · omega
+      · exact slotLe_total (by simpa using hle)
       · exact h.1 b hb
 
-theorem stableSort_perm (l : List Slot) : (stableSort l).Perm l := by
+theorem stableSort_perm (tb : TieBreak) (l : List Slot) : (stableSort tb l).Perm l := by
   induction l with
   | nil => exact List.Perm.refl _
   | cons x xs ih =>
     simp only [stableSort, List.foldr_cons]
-    exact (insertSorted_perm x _).trans (List.Perm.cons x ih)
+    exact (insertSorted_perm tb x _).trans (List.Perm.cons x ih)
 
-theorem mem_stableSort {s : Slot} {l : List Slot} : s ∈ stableSort l ↔ s ∈ l :=
-  (stableSort_perm l).mem_iff
+theorem mem_stableSort {tb : TieBreak} {s : Slot} {l : List Slot} : s ∈ stableSort tb l ↔ s ∈ l :=
+  (stableSort_perm tb l).mem_iff
 
-theorem sorted_stableSort (l : List Slot) : Sorted (stableSort l) := by
+theorem sortedBy_stableSort (tb : TieBreak) (l : List Slot) : SortedBy tb (stableSort tb l) := by
   induction l with
-  | nil => simp [stableSort, Sorted]
+  | nil => simp [stableSort, SortedBy]
   | cons x xs ih =>
     simp only [stableSort, List.foldr_cons]
-    exact sorted_insertSorted ih
+    exact sortedBy_insertSorted ih
 
-theorem insertSorted_of_le_all {e : Slot} {l : List Slot} (h : ∀ b ∈ l, e.pos ≤ b.pos) :
-    insertSorted e l = e :: l := by
+theorem sorted_stableSort (tb : TieBreak) (l : List Slot) : Sorted (stableSort tb l) :=
+  sorted_of_sortedBy (sortedBy_stableSort tb l)
+
+theorem insertSorted_of_le_all {tb : TieBreak} {e : Slot} {l : List Slot} (h : ∀ b ∈ l, slotLe tb e b = true) :
+    insertSorted tb e l = e :: l := by
   cases l with
   | nil => rfl
   | cons x xs => simp [insertSorted, h x List.mem_cons_self]
 
-theorem stableSort_of_sorted {l : List Slot} (h : Sorted l) : stableSort l = l := by
+theorem stableSort_of_sorted {tb : TieBreak} {l : List Slot} (h : SortedBy tb l) : stableSort tb l = l := by
   induction l with
   | nil => rfl
   | cons x xs ih =>
-    unfold Sorted at h ih
+    unfold SortedBy at h ih
     rw [List.pairwise_cons] at h
     simp only [stableSort, List.foldr_cons]
     have := ih h.2
@@ -82,35 +115,36 @@ theorem stableSort_of_sorted {l : List Slot} (h : Sorted l) : stableSort l = l :
     rw [this]
     exact insertSorted_of_le_all h.1
 
-theorem filter_insertSorted (p : Slot → Bool) (e : Slot) {l : List Slot} (hs : Sorted l) :
-    (insertSorted e l).filter p = if p e then insertSorted e (l.filter p) else l.filter p := by
+theorem filter_insertSorted {tb : TieBreak} (p : Slot → Bool) (e : Slot) {l : List Slot} (hs : SortedBy tb l) :
+    (insertSorted tb e l).filter p = if p e then insertSorted tb e (l.filter p) else l.filter p := by
   induction l with
   | nil => cases h : p e <;> simp [insertSorted, h]
   | cons x xs ih =>
-    unfold Sorted at hs ih
+    unfold SortedBy at hs ih
     rw [List.pairwise_cons] at hs
     simp only [insertSorted]
-    by_cases hle : e.pos ≤ x.pos
+    by_cases hle : slotLe tb e x = true
     · simp only [hle, if_true]
-      have hall : ∀ b ∈ (x :: xs).filter p, e.pos ≤ b.pos := by
+      have hall : ∀ b ∈ (x :: xs).filter p, slotLe tb e b = true := by
         intro b hb
         have hb' := (List.mem_filter.mp hb).1
         rcases List.mem_cons.mp hb' with rfl | hb'
         · exact hle
-        · exact Nat.le_trans hle (hs.1 b hb')
+        · exact slotLe_trans hle (hs.1 b hb')
       rw [insertSorted_of_le_all hall]
       cases hpe : p e <;> simp [List.filter_cons, hpe]
-    · simp only [hle, if_false]
+    · have hle' : slotLe tb e x = false := by simpa using hle
+      simp only [hle', Bool.false_eq_true, if_false]
       rw [List.filter_cons, ih hs.2]
-      cases hpe : p e <;> cases hpx : p x <;> simp [hpx, insertSorted, hle]
+      cases hpe : p e <;> cases hpx : p x <;> simp [hpx, insertSorted, hle']
 
-theorem filter_stableSort (p : Slot → Bool) (l : List Slot) :
-    (stableSort l).filter p = stableSort (l.filter p) := by
+theorem filter_stableSort (tb : TieBreak) (p : Slot → Bool) (l : List Slot) :
+    (stableSort tb l).filter p = stableSort tb (l.filter p) := by
   induction l with
   | nil => rfl
   | cons x xs ih =>
-    have h1 : stableSort (x :: xs) = insertSorted x (stableSort xs) := rfl
-    rw [h1, filter_insertSorted p x (sorted_stableSort xs), ih, List.filter_cons]
+    have h1 : stableSort tb (x :: xs) = insertSorted tb x (stableSort tb xs) := rfl
+    rw [h1, filter_insertSorted p x (sortedBy_stableSort tb xs), ih, List.filter_cons]
     cases hpx : p x <;> simp [stableSort]
 
 /-! ## the clockwise walk as a fold -/
@@ -465,17 +499,22 @@ theorem getReplicasWithRf_eq {r : HashRing} (hs : Sorted r.ring) (keyPos rf : Na
 /-- what every `HashRing` value built by `new` / `add_node` / `remove_node` satisfies -/
 structure WF (r : HashRing) : Prop where
   sorted : Sorted r.ring
+  sortedBy : SortedBy r.tb r.ring
   physNodup : r.phys.Nodup
   ringSub : ∀ s ∈ r.ring, s.node ∈ r.phys
 
 /-- every physical node owns at least one slot (holds when `virtual_nodes_per_physical ≥ 1`) -/
 def Covered (r : HashRing) : Prop := ∀ n ∈ r.phys, ∃ s ∈ r.ring, s.node = n
 
-theorem wf_empty (vnodes rf : Nat) : WF (empty vnodes rf) :=
-  ⟨by simp [empty, Sorted], by simp [empty], by simp [empty]⟩
+theorem wf_emptyTB (tb : TieBreak) (vnodes rf : Nat) : WF (emptyTB tb vnodes rf) :=
+  ⟨by simp [emptyTB, Sorted], by simp [emptyTB, SortedBy], by simp [emptyTB], by simp [emptyTB]⟩
 
-theorem covered_empty (vnodes rf : Nat) : Covered (empty vnodes rf) := by
-  intro n hn; simp [empty] at hn
+theorem wf_empty (vnodes rf : Nat) : WF (empty vnodes rf) := wf_emptyTB _ vnodes rf
+
+theorem covered_emptyTB (tb : TieBreak) (vnodes rf : Nat) : Covered (emptyTB tb vnodes rf) := by
+  intro n hn; simp [emptyTB] at hn
+
+theorem covered_empty (vnodes rf : Nat) : Covered (empty vnodes rf) := covered_emptyTB _ vnodes rf
 
 theorem mem_vnodesOf {hashV : Nat → Nat → Nat} {node vnodes : Nat} {s : Slot} :
     s ∈ vnodesOf hashV node vnodes ↔ ∃ i, i < vnodes ∧ s = ⟨hashV node i, node, i⟩ := by
@@ -493,13 +532,18 @@ theorem addNode_of_mem {hashV : Nat → Nat → Nat} {r : HashRing} {x : Nat} (h
 theorem addNode_of_not_mem {hashV : Nat → Nat → Nat} {r : HashRing} {x : Nat} (h : ¬ x ∈ r.phys) :
     addNode hashV r x = { r with
       phys := r.phys ++ [x]
-      ring := stableSort (r.ring ++ vnodesOf hashV x r.vnodes) } := by
+      ring := stableSort r.tb (r.ring ++ vnodesOf hashV x r.vnodes) } := by
   unfold addNode
   rw [if_neg (fun hc => h (List.contains_iff_mem.mp hc))]
 
 theorem addNode_vnodes (hashV : Nat → Nat → Nat) (r : HashRing) (x : Nat) :
     (addNode hashV r x).vnodes = r.vnodes ∧ (addNode hashV r x).rf = r.rf := by
   unfold addNode; split <;> simp
+
+theorem addNode_tb (hashV : Nat → Nat → Nat) (r : HashRing) (x : Nat) : (addNode hashV r x).tb = r.tb := by
+  unfold addNode; split <;> simp
+
+theorem removeNode_tb (r : HashRing) (x : Nat) : (removeNode r x).tb = r.tb := rfl
 
 theorem mem_phys_addNode {hashV : Nat → Nat → Nat} {r : HashRing} {x y : Nat} :
     y ∈ (addNode hashV r x).phys ↔ y ∈ r.phys ∨ y = x := by
@@ -520,8 +564,9 @@ theorem wf_addNode (hashV : Nat → Nat → Nat) {r : HashRing} (x : Nat) (h : W
     WF (addNode hashV r x) := by
   by_cases hx : x ∈ r.phys
   · rw [addNode_of_mem hx]; exact h
-  · refine ⟨?_, ?_, ?_⟩
-    · rw [addNode_of_not_mem hx]; exact sorted_stableSort _
+  · refine ⟨?_, ?_, ?_, ?_⟩
+    · rw [addNode_of_not_mem hx]; exact sorted_stableSort _ _
+    · rw [addNode_of_not_mem hx]; exact sortedBy_stableSort _ _
     · rw [addNode_of_not_mem hx]
       simp only [List.nodup_append]
       refine ⟨h.physNodup, by simp, ?_⟩
@@ -547,8 +592,9 @@ theorem covered_addNode (hashV : Nat → Nat → Nat) {r : HashRing} (x : Nat) (
     · exact ⟨⟨hashV n 0, n, 0⟩, (mem_ring_addNode hx).mpr (Or.inr (mem_vnodesOf.mpr ⟨0, by omega, rfl⟩)), rfl⟩
 
 theorem wf_removeNode {r : HashRing} (x : Nat) (h : WF r) : WF (removeNode r x) := by
-  refine ⟨?_, ?_, ?_⟩
+  refine ⟨?_, ?_, ?_, ?_⟩
   · exact List.Pairwise.filter _ h.sorted
+  · exact List.Pairwise.filter _ h.sortedBy
   · exact List.Pairwise.filter _ h.physNodup
   · intro s hs
     simp only [removeNode, List.mem_filter] at hs ⊢
@@ -571,7 +617,7 @@ theorem removeNode_addNode {hashV : Nat → Nat → Nat} {r : HashRing} {x : Nat
     have : r.phys.filter (fun n => n != x) = r.phys := by
       rw [List.filter_eq_self]; intro a ha; simp; intro hax; exact hx (hax ▸ ha)
     rw [this]; simp
-  have h2 : (stableSort (r.ring ++ vnodesOf hashV x r.vnodes)).filter (fun s => s.node != x) = r.ring := by
+  have h2 : (stableSort r.tb (r.ring ++ vnodesOf hashV x r.vnodes)).filter (fun s => s.node != x) = r.ring := by
     rw [filter_stableSort, List.filter_append]
     have ha : r.ring.filter (fun s => s.node != x) = r.ring := by
       rw [List.filter_eq_self]; intro a ha; simp; intro hax; exact hx (hax ▸ h.ringSub a ha)
@@ -579,25 +625,25 @@ theorem removeNode_addNode {hashV : Nat → Nat → Nat} {r : HashRing} {x : Nat
       rw [List.filter_eq_nil_iff]; intro a ha
       obtain ⟨i, _, rfl⟩ := mem_vnodesOf.mp ha
       simp
-    rw [ha, hb, List.append_nil, stableSort_of_sorted h.sorted]
+    rw [ha, hb, List.append_nil, stableSort_of_sorted h.sortedBy]
   rw [h1, h2]
 
 /-- states of `HashRing` reachable through its public API -/
 inductive Reachable (hashV : Nat → Nat → Nat) : HashRing → Prop where
-  | empty (vnodes rf : Nat) : Reachable hashV (empty vnodes rf)
+  | empty (tb : TieBreak) (vnodes rf : Nat) : Reachable hashV (emptyTB tb vnodes rf)
   | add {r : HashRing} (x : Nat) : Reachable hashV r → Reachable hashV (addNode hashV r x)
   | remove {r : HashRing} (x : Nat) : Reachable hashV r → Reachable hashV (removeNode r x)
 
 theorem Reachable.wf {hashV : Nat → Nat → Nat} {r : HashRing} (h : Reachable hashV r) : WF r := by
   induction h with
-  | empty v f => exact wf_empty v f
+  | empty t v f => exact wf_emptyTB t v f
   | add x _ ih => exact wf_addNode hashV x ih
   | remove x _ ih => exact wf_removeNode x ih
 
 theorem Reachable.covered {hashV : Nat → Nat → Nat} {r : HashRing} (h : Reachable hashV r)
     (hv : 1 ≤ r.vnodes) : Covered r := by
   induction h with
-  | empty v f => exact covered_empty v f
+  | empty t v f => exact covered_emptyTB t v f
   | add x _ ih =>
     rw [(addNode_vnodes hashV _ x).1] at hv
     exact covered_addNode hashV x hv (ih hv)
@@ -609,9 +655,12 @@ theorem foldl_addNode_reachable {hashV : Nat → Nat → Nat} (nodes : List Nat)
   | nil => exact h
   | cons x xs ih => exact ih (Reachable.add x h)
 
+theorem newTB_reachable (tb : TieBreak) (hashV : Nat → Nat → Nat) (nodes : List Nat) (vnodes rf : Nat) :
+    Reachable hashV (newTB tb hashV nodes vnodes rf) :=
+  foldl_addNode_reachable nodes (Reachable.empty tb vnodes rf)
+
 theorem new_reachable (hashV : Nat → Nat → Nat) (nodes : List Nat) (vnodes rf : Nat) :
-    Reachable hashV (new hashV nodes vnodes rf) :=
-  foldl_addNode_reachable nodes (Reachable.empty vnodes rf)
+    Reachable hashV (new hashV nodes vnodes rf) := newTB_reachable _ hashV nodes vnodes rf
 
 theorem foldl_addNode_vnodes (hashV : Nat → Nat → Nat) (nodes : List Nat) (r : HashRing) :
     (nodes.foldl (addNode hashV) r).vnodes = r.vnodes ∧ (nodes.foldl (addNode hashV) r).rf = r.rf := by
@@ -621,9 +670,22 @@ theorem foldl_addNode_vnodes (hashV : Nat → Nat → Nat) (nodes : List Nat) (r
     simp only [List.foldl_cons]
     rw [(ih _).1, (ih _).2]; exact addNode_vnodes hashV r x
 
+theorem newTB_vnodes (tb : TieBreak) (hashV : Nat → Nat → Nat) (nodes : List Nat) (vnodes rf : Nat) :
+    (newTB tb hashV nodes vnodes rf).vnodes = vnodes ∧ (newTB tb hashV nodes vnodes rf).rf = rf :=
+  foldl_addNode_vnodes hashV nodes (emptyTB tb vnodes rf)
+
 theorem new_vnodes (hashV : Nat → Nat → Nat) (nodes : List Nat) (vnodes rf : Nat) :
     (new hashV nodes vnodes rf).vnodes = vnodes ∧ (new hashV nodes vnodes rf).rf = rf :=
-  foldl_addNode_vnodes hashV nodes (empty vnodes rf)
+  newTB_vnodes _ hashV nodes vnodes rf
+
+theorem foldl_addNode_tb (hashV : Nat → Nat → Nat) (nodes : List Nat) (r : HashRing) :
+    (nodes.foldl (addNode hashV) r).tb = r.tb := by
+  induction nodes generalizing r with
+  | nil => rfl
+  | cons x xs ih => simp only [List.foldl_cons]; rw [ih, addNode_tb]
+
+theorem newTB_tb (tb : TieBreak) (hashV : Nat → Nat → Nat) (nodes : List Nat) (vnodes rf : Nat) :
+    (newTB tb hashV nodes vnodes rf).tb = tb := foldl_addNode_tb hashV nodes (emptyTB tb vnodes rf)
 
 /-! ## counting -/
 
@@ -724,8 +786,8 @@ structure Exact (hashV : Nat → Nat → Nat) (r : HashRing) : Prop where
   nodup : r.ring.Nodup
   mem : ∀ s, s ∈ r.ring ↔ ∃ n ∈ r.phys, ∃ i, i < r.vnodes ∧ s = ⟨hashV n i, n, i⟩
 
-theorem exact_empty (hashV : Nat → Nat → Nat) (vnodes rf : Nat) : Exact hashV (empty vnodes rf) :=
-  ⟨by simp [empty], by intro s; simp [empty]⟩
+theorem exact_empty (hashV : Nat → Nat → Nat) (tb : TieBreak) (vnodes rf : Nat) : Exact hashV (emptyTB tb vnodes rf) :=
+  ⟨by simp [emptyTB], by intro s; simp [emptyTB]⟩
 
 theorem nodup_vnodesOf (hashV : Nat → Nat → Nat) (node vnodes : Nat) :
     (vnodesOf hashV node vnodes).Nodup := by
@@ -743,7 +805,7 @@ theorem exact_addNode {hashV : Nat → Nat → Nat} {r : HashRing} (x : Nat) (hw
   · refine ⟨?_, ?_⟩
     · rw [addNode_of_not_mem hx]
       simp only []
-      rw [(stableSort_perm _).nodup_iff, List.nodup_append]
+      rw [(stableSort_perm _ _).nodup_iff, List.nodup_append]
       refine ⟨h.nodup, nodup_vnodesOf _ _ _, ?_⟩
       intro a ha b hb hab
       obtain ⟨i, _, rfl⟩ := mem_vnodesOf.mp hb
@@ -775,7 +837,7 @@ theorem exact_removeNode {hashV : Nat → Nat → Nat} {r : HashRing} (x : Nat)
 theorem Reachable.exact {hashV : Nat → Nat → Nat} {r : HashRing} (h : Reachable hashV r) :
     Exact hashV r := by
   induction h with
-  | empty v f => exact exact_empty hashV v f
+  | empty t v f => exact exact_empty hashV t v f
   | add x hr ih => exact exact_addNode x hr.wf ih
   | remove x _ ih => exact exact_removeNode x ih
 
@@ -796,11 +858,14 @@ theorem mem_phys_foldl_addNode {hashV : Nat → Nat → Nat} (nodes : List Nat) 
       · exact Or.inl (Or.inr h)
       · exact Or.inr h
 
-theorem mem_phys_new {hashV : Nat → Nat → Nat} {nodes : List Nat} {vnodes rf y : Nat} :
-    y ∈ (new hashV nodes vnodes rf).phys ↔ y ∈ nodes := by
-  unfold new
+theorem mem_phys_newTB {tb : TieBreak} {hashV : Nat → Nat → Nat} {nodes : List Nat} {vnodes rf y : Nat} :
+    y ∈ (newTB tb hashV nodes vnodes rf).phys ↔ y ∈ nodes := by
+  unfold newTB
   rw [mem_phys_foldl_addNode]
-  simp [empty]
+  simp [emptyTB]
+
+theorem mem_phys_new {hashV : Nat → Nat → Nat} {nodes : List Nat} {vnodes rf y : Nat} :
+    y ∈ (new hashV nodes vnodes rf).phys ↔ y ∈ nodes := mem_phys_newTB
 
 theorem perm_of_nodup_of_mem_iff {α : Type} [DecidableEq α] {l₁ l₂ : List α} (h1 : l₁.Nodup)
     (h2 : l₂.Nodup) (h : ∀ a, a ∈ l₁ ↔ a ∈ l₂) : l₁.Perm l₂ := by
@@ -858,6 +923,27 @@ theorem ring_eq_of_same_members {hashV : Nat → Nat → Nat} {r₁ r₂ : HashR
   have hpos : hashV n i = hashV m j := Nat.le_antisymm hab hba
   obtain ⟨rfl, rfl⟩ := hinj n hn m hm' i hi j hj hpos
   rfl
+
+/-- with the patched sort key (position, node id, virtual index — a total order on slots) the ring
+    is a function of the membership SET, whatever the positions: no hypothesis on the hash -/
+theorem ring_eq_of_same_members_total {hashV : Nat → Nat → Nat} {r₁ r₂ : HashRing}
+    (h1 : Reachable hashV r₁) (h2 : Reachable hashV r₂) (ht1 : r₁.tb = .total) (ht2 : r₂.tb = .total)
+    (hv : r₁.vnodes = r₂.vnodes) (hm : ∀ y, y ∈ r₁.phys ↔ y ∈ r₂.phys) :
+    r₁.ring = r₂.ring := by
+  have e1 := h1.exact
+  have e2 := h2.exact
+  have hmem : ∀ s, s ∈ r₁.ring ↔ s ∈ r₂.ring := by
+    intro s
+    rw [e1.mem, e2.mem, hv]
+    constructor
+    · rintro ⟨n, hn, rest⟩; exact ⟨n, (hm n).mp hn, rest⟩
+    · rintro ⟨n, hn, rest⟩; exact ⟨n, (hm n).mpr hn, rest⟩
+  have hperm := perm_of_nodup_of_mem_iff e1.nodup e2.nodup hmem
+  have s1 : SortedBy .total r₁.ring := ht1 ▸ h1.wf.sortedBy
+  have s2 : SortedBy .total r₂.ring := ht2 ▸ h2.wf.sortedBy
+  refine List.Perm.eq_of_pairwise (le := fun a b : Slot => slotLe .total a b = true) ?_ s1 s2 hperm
+  intro a b _ _ hab hba
+  exact slotLe_total_antisymm hab hba
 
 /-! ## routing table -/
 
